@@ -143,6 +143,26 @@ func applyIgnore(bt *gen.Built, lineID int, c ignCase, code string, rng *base.Ra
 			// with a doc comment the lead simply becomes the first line of the doc group
 			desc += "+doc"
 		}
+	case "dangling-end-of-body":
+		// the comment is the last thing in the body of a compound statement that ends before the diagnostic:
+		// no statement follows it in that body, so nothing is in its scope
+		if c.where != "prev" {
+			return false, ""
+		}
+		// a body that ends just before the statement of the diagnostic: either the if/for/closure statement that precedes
+		// it anyway, or (most functions have none) a bare block inserted for the purpose: "{ // @ignore X }"
+		if !self.IsStatement() || self.Parent == nil {
+			return false, ""
+		}
+		if pn := sibling(self, -1); pn != nil && len(pn.Kids) > 0 && len(pn.Post) > 0 && len(pn.Pre) > 0 && !strings.HasPrefix(strings.TrimSpace(pn.Pre[0].Text), "switch") && !strings.HasPrefix(strings.TrimSpace(pn.Pre[0].Text), "select") && rng.Bool() {
+			pn.Kids = append(pn.Kids, &gen.Node{Lead: []*gen.Ignore{ig}})
+			desc += "+existing-body"
+		} else {
+			blk := &gen.Node{Pre: []*gen.Line{p.NewLine("{")}, Kids: []*gen.Node{{Lead: []*gen.Ignore{ig}}}, Post: []*gen.Line{p.NewLine("}")}}
+			kids := self.Parent.Kids
+			self.Parent.Kids = append(append(append([]*gen.Node{}, kids[:self.Index]...), blk), kids[self.Index:]...)
+			desc += "+bare-block"
+		}
 	case "package-clause-trailing":
 		// the comment trails the package clause: its scope is that line only, nothing is suppressed
 		if c.where != "in" || file.PkgTrail != nil {
@@ -191,7 +211,7 @@ func checkC07(replay string) {
 		p  string
 		ws []string
 	}{{"trailing", []string{"in", "prev", "next"}}, {"lead-stmt", []string{"in", "prev", "next"}}, {"lead-compound", []string{"in"}},
-		{"lead-decl", []string{"in", "prev", "next"}}, {"lead-decl-gap", []string{"in", "next"}}, {"file", []string{"in", "other-file"}}, {"package-clause-trailing", []string{"in"}}} {
+		{"lead-decl", []string{"in", "prev", "next"}}, {"lead-decl-gap", []string{"in", "next"}}, {"file", []string{"in", "other-file"}}, {"package-clause-trailing", []string{"in"}}, {"dangling-end-of-body", []string{"prev"}}} {
 		for _, w := range pl.ws {
 			placements = append(placements, ignCase{placement: pl.p, where: w})
 		}
